@@ -52,19 +52,21 @@ static Profile profile_for(const std::string &p, Rng &r, uint64_t index) {
         pf.pct_dev_frame = 4; pf.pct_extend = 6; pf.n_custom_params = 5; pf.pct_mid_save = 10; pf.pct_mid_reload = 10; pf.pct_dev_col = 5;
     } else if (p == "C05") {
         pf.pct_shuffled_setup = 50; pf.pct_dev_frame = 15; pf.pct_cols = 40; pf.pct_decl_after_data = 30; pf.pct_mid_save = 6; pf.pct_mid_reload = 12;
-        pf.fill_gaps_before_save = false; pf.pct_extend = 12;
+        pf.fill_gaps_before_save = false; pf.pct_extend = 12; pf.pct_resubmit = 20;
     } else if (p == "C06") {
         pf.pct_extend = 25; pf.pct_replace = 30; pf.pct_cols = 40; pf.pct_decl_after_data = 25; pf.pct_dev_frame = 5; pf.pct_mid_save = 0; pf.pct_mid_reload = 0; pf.pct_print = 0;
         pf.pct_resubmit = 20;
     } else if (p == "C07") {
         pf.pct_dev_frame = 45; pf.pct_dev_col = 55; pf.pct_shuffled_setup = 45; pf.pct_cols = 50; pf.pct_mid_save = 4; pf.pct_mid_reload = 8; pf.pct_print = 0;
+        pf.pct_space_names = 5;
     } else if (p == "C08") {
         pf.pct_caller_mutation = 50; pf.pct_resubmit = 50; pf.pct_cols = 50; pf.pct_dev_frame = 3; pf.pct_dev_col = 5; pf.pct_mid_save = 0; pf.pct_mid_reload = 0; pf.pct_print = 0;
     } else if (p == "C09") {
         pf.n_custom_params = 10; pf.pct_bad_param = 30; pf.pct_locks = 80; pf.max_frames = 3; pf.pct_mid_save = 0; pf.pct_mid_reload = 6;
+        pf.pct_space_names = 8;
     } else if (p == "C10") {
         pf.pct_dev_frame = 40; pf.pct_dev_col = 60; pf.pct_bad_param = 45; pf.pct_locks = 60; pf.pct_cols = 50; pf.pct_decl_after_data = 40; pf.n_custom_params = 5;
-        pf.pct_shuffled_setup = 40; pf.pct_mid_save = 0; pf.pct_mid_reload = 6; pf.pct_print = 0;
+        pf.pct_shuffled_setup = 40; pf.pct_mid_save = 0; pf.pct_mid_reload = 6; pf.pct_print = 0; pf.pct_space_names = 8;
     } else if (p == "C14") {
         pf.pct_mid_save = 70; pf.pct_print = 25; pf.pct_mid_reload = 15; pf.n_custom_params = 5; pf.fill_gaps_before_save = false;
     } else if (p == "C15" || p == "C16") {
